@@ -212,10 +212,12 @@ REGISTRY = {
         packs=["c15", "par4"],
         level="proof",
         replay=dict(script="replay/c15.py", args=["search", "12"], timeout=600),
-        bounded=[dict(name="n_jobs-small-scope", script="replay/c15.py", args=["search", "12"],
+        bounded=[dict(name="audit-scenarios", script="replay/found.py", args=["C15", "{tier}"], timeout=1500, bound="scenarios contributed by audit sub-agents (replay/found/MANIFEST.json): repaired defects must stay repaired, recorded findings are probed; includes the reuse history n_jobs=4 then n_jobs=2 on one loky executor (the resize of the vendored reusable executor is NOT under contract: bounded only)"),
+                 dict(name="n_jobs-small-scope", script="replay/c15.py", args=["search", "12"],
                       bound="n_jobs in -12..12 x cpus in {1,2,3,8} x 4 backends x nesting level {0,1,None}; nested backends to depth 4; "
                             "loky cpu_count on 192 environment combinations")],
-        trusted=["a pool / executor created with size k runs at most k tasks at once (ThreadPool, multiprocessing, loky)"],
+        trusted=["a pool / executor created with size k runs at most k tasks at once (ThreadPool, multiprocessing, loky)",
+                 "joblib/externals/loky (vendored): get_reusable_executor / _ReusablePoolExecutor._resize bring a REUSED executor to exactly the requested size - not under contract (waiting loops over state changed by worker processes); one native reuse history stands in (bounded)"],
         assumptions=["Parallel.__call__'s n_jobs == 1 branch and _get_sequential_output (calling thread, in order) come from the dispatcher pack (par4)",
                      "os.sched_getaffinity / cgroup readers / physical-core probes are externals (arbitrary integers)"],
         undecided_clauses=["'never executes more tasks simultaneously' is reduced to 'every pool is created with exactly the resolved n_jobs'; the pools' own concurrency bound is assumed"],
